@@ -3,6 +3,7 @@ package k8s
 import (
 	"slices"
 	"sync"
+	"unicode/utf8"
 
 	"github.com/ozontech/file.d/cfg"
 	"github.com/ozontech/file.d/pipeline"
@@ -139,7 +140,7 @@ func (p *MultilineAction) Do(event *pipeline.Event) pipeline.ActionResult {
 
 			if p.cutOffEventByLimit {
 				offset := sizeAfterAppend - p.maxEventSize
-				p.eventBuf = append(p.eventBuf, logFragment[1:logFragmentLen-1-offset]...)
+				p.eventBuf = append(p.eventBuf, cutEscaped(logFragment[1:logFragmentLen-1], logFragmentLen-2-offset)...)
 				p.cutOffEvent = true
 
 				p.logger.Errorf("event chunk will be cut off due to max_event_size, source_name=%s, namespace=%s, pod=%s", event.SourceName, ns, pod)
@@ -243,4 +244,35 @@ func (p *MultilineAction) resetLogBuf() {
 	p.eventBuf = p.eventBuf[:1]
 	p.eventSize = 0
 	p.cutOffEvent = false
+}
+
+// cutEscaped returns the longest prefix of the escaped string s that is not
+// longer than limit bytes and ends neither inside an escape sequence
+// (`\"`, `\u00e9`) nor inside a multi-byte character, so the result is still
+// a valid escaped string.
+func cutEscaped(s string, limit int) string {
+	if limit <= 0 {
+		return ""
+	}
+	if limit >= len(s) {
+		return s
+	}
+	end := 0
+	for end < limit {
+		size := 1
+		switch c := s[end]; {
+		case c == '\\':
+			size = 2
+			if end+1 < len(s) && s[end+1] == 'u' {
+				size = 6
+			}
+		case c >= utf8.RuneSelf:
+			_, size = utf8.DecodeRuneInString(s[end:])
+		}
+		if end+size > limit {
+			break
+		}
+		end += size
+	}
+	return s[:end]
 }
